@@ -168,6 +168,9 @@ def writeLayerContents (d : List (String × DLayer)) (order : List String) : Exc
     .ok (order.filterMap (fun n => (AL.get? d n).map (fun dl => (n, dl))))
   else .error .ufoLibError
 
+/-- after a save every layer is bound to its glyph set in the written UFO -/
+def bound (l : MLayer) : MLayer := { l with onDisk := true }
+
 /-- in-place `LayerSet.save` (format 3) followed by the re-binding of every layer -/
 def saveInPlace (s : State) : Except Err State :=
   match replay s.history s.disk with
@@ -181,7 +184,7 @@ def saveInPlace (s : State) : Except Err State :=
     | .ok d2 =>
       .ok { s with
         disk := d2
-        layers := s.layers.map (fun p => (p.1, { p.2 with onDisk := true }))
+        layers := s.layers.map (fun p => (p.1, bound p.2))
         history := (s.order.filter (fun n => some n ≠ defaultName s)).map Action.new }
 
 /-- save-as: every layer gets a new glyph set in an empty UFO -/
@@ -194,7 +197,7 @@ def saveAs (s : State) : Except Err State :=
     | .ok d2 =>
       .ok { s with
         disk := d2
-        layers := s.layers.map (fun p => (p.1, { p.2 with onDisk := true }))
+        layers := s.layers.map (fun p => (p.1, bound p.2))
         history := (s.order.filter (fun n => some n ≠ defaultName s)).map Action.new }
 
 inductive Op where
@@ -216,15 +219,15 @@ def step (s : State) : Op → Except Err State
   | .saveInPlace => saveInPlace s
   | .saveAs => saveAs s
 
-/-- a layer set freshly loaded from a UFO: one layer object per entry of layercontents -/
-def opened (names : List String) (defaultIdx : Nat) : State :=
-  let ls := names.zipIdx
+/-- a layer set freshly loaded from a UFO: one layer object (identity `lid`) per entry of
+layercontents; `Font.__init__` leaves the history `new …, default D None` behind -/
+def opened (ls : List (String × Nat)) (defLid : Nat) (defName : String) : State :=
   { layers := ls.map (fun p => (p.1, ⟨p.2, true⟩))
-    order := names
-    default := some defaultIdx
-    history := names.map Action.new ++ [Action.default (names.getD defaultIdx "") none]
-    disk := ls.map (fun p => (p.1, ⟨p.2, p.2 = defaultIdx⟩))
-    nextLid := names.length }
+    order := ls.map Prod.fst
+    default := some defLid
+    history := ls.map (fun p => Action.new p.1) ++ [Action.default defName none]
+    disk := ls.map (fun p => (p.1, ⟨p.2, decide (p.2 = defLid)⟩))
+    nextLid := ls.length }
 
 end LayerSet
 end DefconModel
